@@ -175,6 +175,31 @@ def libgit2_drops(lines):
     return kept
 
 
+def git_quirk_ignored(repo, home, rels):
+    """The ignored set under the libgit2 defect model: ignore files are rewritten in place the way libgit2 reads them,
+    the real git is asked again, the files are restored. None when the model changes nothing."""
+    saved = {}
+    for dp, _dn, fn in os.walk(repo):
+        if ".gitignore" in fn and ".git" not in dp.split(os.sep):
+            fp = os.path.join(dp, ".gitignore")
+            with open(fp) as f:
+                orig = f.read()
+            kept = libgit2_drops(orig.split("\n"))
+            if "\n".join(kept) != orig:
+                saved[fp] = orig
+                with open(fp, "w") as f:
+                    f.write("\n".join(kept))
+    if not saved:
+        return None
+    try:
+        ign_q = git_ignored_set(repo, home, rels)
+        return set(r for r in rels if r in ign_q or any(p in ign_q for p in prefixes(r)[:-1]))
+    finally:
+        for fp, orig in saved.items():
+            with open(fp, "w") as f:
+                f.write(orig)
+
+
 def hg_lines(rng, dirs):
     lines = []
     syntax = "regexp"
@@ -190,6 +215,64 @@ def hg_lines(rng, dirs):
     return lines
 
 
+def job_container(res, rng, sc, w):
+    """The search root is NOT a repository but contains two git repositories, each with its own .gitignore."""
+    home = runner.make_home(sc, config="")
+    env = {"HOME": home, "PATH": "/usr/bin:/bin", "GIT_CONFIG_NOSYSTEM": "1"}
+    top = os.path.join(w, "work")
+    os.mkdir(top)
+    want_all, ignored_all = [], set()
+    want_quirk, any_quirk = [], False
+    ignfiles = {}
+    for name in ("repoA", "repoB", "plain"):
+        d = os.path.join(top, name)
+        os.mkdir(d)
+        dirs = gen_repo_tree(rng, d)
+        if name != "plain":
+            subprocess.run(["git", "init", "-q", d], env=env, check=True, stdout=subprocess.DEVNULL, stderr=subprocess.DEVNULL)
+            lines = gen_patterns(rng, dirs, "git")
+            with open(os.path.join(d, ".gitignore"), "w") as f:
+                f.write("\n".join(lines) + "\n")
+        snap = tree.snapshot(d)
+        rels = [e.rel for e in snap if not (e.rel == ".git" or e.rel.startswith(".git/"))]
+        if name != "plain":
+            ign = git_ignored_set(d, home, rels)
+            ign = set(r for r in rels if r in ign or any(p in ign for p in prefixes(r)[:-1]))
+            ign_q = git_quirk_ignored(d, home, rels)
+        else:
+            ign, ign_q = set(), None
+        want_quirk += [name + "/" + r for r in rels if r not in (ign if ign_q is None else ign_q)]
+        any_quirk = any_quirk or ign_q is not None
+        ignfiles = dict(ignfiles, **{name: lines}) if name != "plain" else ignfiles
+        want_all += [name + "/" + r for r in rels if r not in ign]
+        ignored_all |= set(name + "/" + r for r in ign)
+    for mode in ("", " dfs", " bfs"):
+        for frm, cwd in (("work", w), (top, w), (".", top)):
+            query = "path from %s gitignore%s into list" % (frm, mode)
+            r = runner.run([query], cwd=cwd, home=home)
+            res.ev()
+            ctx = {"query": query, "cwd": os.path.relpath(cwd, w), "ignore_files": ignfiles, "result": r.brief()}
+            if r.verdict != "ok" or r.rc != 0 or r.err:
+                if r.verdict in ("ok", "busy", "blocked"):
+                    res.viol("`%s`: %s status %s stderr %r" % (query, r.verdict, r.rc, r.err[:160]), ctx)
+                continue
+            got = set(os.path.relpath(os.path.normpath(os.path.join(cwd, x)), top) for x in r.rows())
+            got = set(x for x in got if "/.git/" not in x and not x.endswith("/.git"))
+            want = set(want_all) | {"repoA", "repoB", "plain"}
+            if got != want:
+                ctx["wrongly_listed"] = sorted(got - want)[:8]
+                ctx["wrongly_omitted"] = sorted(want - got)[:8]
+                sig = None
+                if any_quirk and got == set(want_quirk) | {"repoA", "repoB", "plain"}:
+                    sig = "git_negation_without_positive_rule_in_same_file_dropped"
+                res.viol("git on (option, root containing two repositories,%s): %d entries wrongly omitted (e.g. %s), %d wrongly listed (e.g. %s)" % (
+                    mode or " default", len(want - got), sorted(want - got)[:2], len(got - want), sorted(got - want)[:2]), ctx, sig=sig)
+                continue
+            res.cover("spelling_mode", "container %s" % (mode.strip() or "default"))
+            if ignored_all:
+                res.nt("container|%s|%s|%d" % (mode, frm == ".", len(ignored_all)))
+
+
 def run_job(job):
     res = JobResult()
     rng = random.Random(job["seed"])
@@ -197,6 +280,9 @@ def run_job(job):
     try:
         w = runner.work_dir(sc)
         tool = job["tool"]
+        if tool == "git-container":
+            job_container(res, rng, sc, w)
+            return res
         repo = os.path.join(w, "repo")
         os.mkdir(repo)
         dirs = gen_repo_tree(rng, repo)
@@ -234,26 +320,7 @@ def run_job(job):
                 res.inc("git oracle unavailable: %s" % e)
                 return res
             ignored = set(r for r in rels if r in ign or any(p in ign for p in prefixes(r)[:-1]))
-            # the same question under the libgit2 defect model (ignore files rewritten in place for the oracle only)
-            saved = {}
-            for dp, _dn, fn in os.walk(repo):
-                if ".gitignore" in fn and ".git" not in dp.split(os.sep):
-                    fp = os.path.join(dp, ".gitignore")
-                    with open(fp) as f:
-                        orig = f.read()
-                    kept = libgit2_drops(orig.split("\n"))
-                    if "\n".join(kept) != orig:
-                        saved[fp] = orig
-                        with open(fp, "w") as f:
-                            f.write("\n".join(kept))
-            if saved:
-                try:
-                    ign_q = git_ignored_set(repo, home, rels)
-                    ignored_quirk = set(r for r in rels if r in ign_q or any(p in ign_q for p in prefixes(r)[:-1]))
-                finally:
-                    for fp, orig in saved.items():
-                        with open(fp, "w") as f:
-                            f.write(orig)
+            ignored_quirk = git_quirk_ignored(repo, home, rels)
         elif tool == "hg":
             ignored = set(r for r in rels if hg_ignored(lines, r))
         else:
@@ -369,4 +436,4 @@ def main(chk):
 
 
 def job_tools(chk):
-    return ["git", "hg", "docker"]
+    return ["git", "hg", "docker", "git", "hg", "docker", "git-container"]
